@@ -47,6 +47,18 @@ Theorem C16_batch_shape : forall max q es,
 Proof. exact batch_shape. Qed.
 Print Assumptions C16_batch_shape.
 
+(* F16: an anchor is written only for a batch with at least one included operation: a batch whose operations have all
+   expired is committed without an anchor write (the handler returns no anchor string) *)
+Theorem C16_no_empty_anchor : forall max q es,
+  let s := run max (init q) es in Forall (fun b => ab_included b <> []) (anchored s).
+Proof. exact anchored_nonempty. Qed.
+Print Assumptions C16_no_empty_anchor.
+
+Theorem C16_all_expired_split_defers_nothing : forall f l,
+  included (split_batch f [] l) = [] -> additional (split_batch f [] l) = [].
+Proof. exact split_batch_included_nil_additional_nil. Qed.
+Print Assumptions C16_all_expired_split_defers_nothing.
+
 (* FIFO: operations leave at the head; a failed batch returns to the head in its original order;
    submissions go to the tail *)
 Theorem C16_remove_takes_head : forall max s tf cf n ver,
@@ -121,11 +133,13 @@ Theorem C16_tick_progress :
 Proof. exact tick_progress. Qed.
 Print Assumptions C16_tick_progress.
 
-(* a tick whose anchor write fails leaves queue, anchored batches and discarded operations exactly as they were *)
+(* a tick whose cuts all fail (handler failure, or anchor-write failure for a batch that is not entirely expired - an
+   entirely expired batch is committed without an anchor write since F16) leaves queue, anchored batches and discarded
+   operations exactly as they were *)
 Theorem C16_failed_tick_is_transparent :
   forall (max : nat) (o : oracle) (f : bool) (q : list qop) (es : list event),
          let s := run max (init q) es in
-         anchor_fails o ->
+         cut_fails o ->
          wpc s = Idle ->
          let s' := run max (init q) (es ++ tick_events max o f s) in
          queue s' = queue s /\
@@ -184,13 +198,40 @@ Theorem C16_only_timeouts_or_full_batches_drain :
 Proof. exact unforced_never_drains. Qed.
 Print Assumptions C16_only_timeouts_or_full_batches_drain.
 
-(* and an anchor writer that always fails keeps every operation queued (nothing is skipped, nothing is lost) *)
+(* and a handler / anchor writer that always fails (no batch found entirely expired) keeps every operation queued (nothing is skipped, nothing is lost) *)
 Theorem C16_persistent_failure_blocks :
   forall (max : nat) (q : list qop) (es : list event) (l : list (oracle * bool)),
          let s := run max (init q) es in
          wpc s = Idle ->
-         Forall (fun of : oracle * bool => anchor_fails (fst of)) l ->
+         Forall (fun of : oracle * bool => cut_fails (fst of)) l ->
          let s' := run max (init q) (es ++ ticks_events max l s) in
          queue s' = queue s /\ anchored s' = anchored s /\ discarded s' = discarded s.
 Proof. exact failing_never_drains. Qed.
 Print Assumptions C16_persistent_failure_blocks.
+
+(* F16: after a successful prepare the thread writes an anchor iff the handler included an operation; a batch found
+   entirely expired goes straight to Ack with its operations discarded *)
+Theorem C16_all_expired_batch_is_committed_without_anchor :
+  forall (max : nat) (o : oracle) (s : wstate) (tf cf : bool) (b : list qop) (ver : Z),
+         wpc s = AtPrepare tf cf b ver ->
+         o_ok o s = true ->
+         let s' := wstep max s (EPrepare (o_ok o s) (o_expired o s)) in
+         match included (split_batch (fun i : Z => memZ i (o_expired o s)) [] b) with
+         | [] =>
+             next_ev o s' = Some EAck /\
+             anchored s' = anchored s /\ Permutation (discarded s') (discarded s ++ b)
+         | _ :: _ =>
+             next_ev o s' = Some (EAnchor (o_ok o s')) /\
+             anchored s' = anchored s /\ discarded s' = discarded s
+         end.
+Proof. exact no_anchor_event_after_all_expired_prepare. Qed.
+Print Assumptions C16_all_expired_batch_is_committed_without_anchor.
+
+(* the anchor writer being down is not enough for "nothing changes" *)
+Theorem C16_anchor_failure_alone_is_not_enough :
+  ~ (forall (max : nat) (o : oracle) (f : bool) (q : list qop) (es : list event),
+       let s := run max (init q) es in
+       (forall s0, match wpc s0 with AtAnchor _ _ _ _ _ => o_ok o s0 = false | _ => True end) -> wpc s = Idle ->
+       discarded (run max (init q) (es ++ tick_events max o f s)) = discarded s).
+Proof. exact anchor_failure_alone_is_not_enough. Qed.
+Print Assumptions C16_anchor_failure_alone_is_not_enough.
